@@ -1,0 +1,35 @@
+//! Verification hooks (feature `verif_hooks`, off by default).
+//!
+//! Nothing in here changes behaviour: a byte counter for stream-filter output
+//! and an optional callback invoked at the resolver's synchronisation points.
+use std::sync::atomic::{AtomicU64, Ordering};
+use std::sync::OnceLock;
+
+/// Total number of bytes produced by stream filters / stream decryption so far.
+pub static DECODED_BYTES: AtomicU64 = AtomicU64::new(0);
+
+#[inline]
+pub fn note_decoded(n: usize) {
+    DECODED_BYTES.fetch_add(n as u64, Ordering::Relaxed);
+}
+
+/// Sites passed to the yield callback.
+pub const SITE_GET_AFTER_PUSH: u32 = 1;
+pub const SITE_GET_BEFORE_CACHE: u32 = 2;
+pub const SITE_GET_IN_COMPUTE: u32 = 3;
+pub const SITE_GET_AFTER_CACHE: u32 = 4;
+pub const SITE_GET_BEFORE_POP: u32 = 5;
+
+static YIELD: OnceLock<fn(u32, u64)> = OnceLock::new();
+
+/// Install the callback (first call wins).
+pub fn set_yield(f: fn(u32, u64)) {
+    let _ = YIELD.set(f);
+}
+
+#[inline]
+pub fn yield_point(site: u32, id: u64) {
+    if let Some(f) = YIELD.get() {
+        f(site, id);
+    }
+}
